@@ -354,3 +354,10 @@ def run(chk):
     # scripts through has_repeated_keys, which must see every repetition (rule shared with C12)
     from . import c12
     chk.guard("R03.10", "defect-predicates", c12.check_defect_predicates, chk, chk.facts(), "R03.10")
+    # the non-malleable chooser drops a signature-free alternative only when its lock is really out of reach: the satisfier a
+    # PSBT is finalized with must report every lock the transaction meets (BIP-68 / BIP-65 tables shared with C14 / C02)
+    from . import c14
+    from ..report import RuleAlias
+    chk.guard("R03.11", "psbt-locks", c14.check_locks, RuleAlias(chk, {"R14.1": "R03.11"}, "PsbtInputSatisfier::check_older / "
+              "check_after: a lock the transaction meets is reported as met (a lock wrongly reported unmet under a signed root "
+              "makes the non-malleable satisfier spend a signature where the time-lock path would do)"), chk.facts())
